@@ -48,3 +48,41 @@ PROPS["C01"] = {
                   "error stays far below one hit); the 1 ns/hit quantisation allowance is applied to the upper bound as well",
     "assumptions": ["time.Duration granularity (1 ns) is inherent to the Pacer API"],
 }
+
+PROPS["C10"] = {
+    "title": "Report metrics equal an exact reference computation, in any order, incrementally",
+    "units": [{"name": "metrics", "pkg": "lib", "run": "^TestC10"}],
+    "rule": "rapid draws result multisets (0..300 results, thorough also 1e4..1e5): equal/increasing/reversed/shuffled/"
+            "clustered timestamps with duplicates, zero/tiny/typical/huge latencies (sum < 2^63), status 0 and 100..599 "
+            "with C06-consistent error texts from a small pool, byte counts up to 2^40; a drawn permutation of the order "
+            "of addition and a drawn placement of intermediate Close calls. Non-trivial = n >= 2, addition order not "
+            "sorted by timestamp, >= 1 intermediate Close; distinct = distinct case.",
+    "explanation": "Oracle: reference model with big-integer sums written from README 'report' and the Metrics field "
+                   "comments; struct fields, JSON report (parsed back with encoding/json) and text report compared with "
+                   "it for the generated order and for the permuted order with intermediate closes; percentile "
+                   "estimates are C11's.",
+    "technique": "property-based differential against an exact reference model + permutation/incremental metamorphic relation (rapid)",
+    "level_text": "generated-input search over result multisets, permutations and Close placements against an exact "
+                  "reference computation; finds counterexamples, cannot prove absence",
+    "level_note": "means/rates compared with relative tolerance 1e-12; for zero duration only 'finite and rate = n' is asserted",
+    "assumptions": ["results are consistent with what the attacker produces (error text empty iff status in [200,400))"],
+}
+
+PROPS["C11"] = {
+    "title": "Latency percentiles are ordered and within a bounded rank error",
+    "units": [{"name": "percentiles", "pkg": "lib", "run": "^TestC11"}],
+    "rule": "rapid draws latency multisets of n in {1..20} or log-uniform up to 5000 (thorough: up to 1e5) from eight "
+            "families (uniform, log-normal, exponential, constant, few-valued, bimodal with gaps up to 1e9x, heavy tail, "
+            "ramp) in six arrival orders (as drawn, sorted, reversed, zig-zag, shuffled blocks, reversed blocks). "
+            "Non-trivial = n >= 200 with >= 3 distinct values; distinct = (family, order, n, hash of the sequence).",
+    "explanation": "Oracle: min<=p50<=p90<=p95<=p99<=max; min/max exact; all-equal input => every percentile equals the "
+                   "value; rank error max(q*n - #{x<=v}, #{x<v} - q*n, 0) <= 1 + 0.01*n (rank-interval convention: the "
+                   "j-th smallest observation occupies ranks [j-1, j], ties the union) with v inside [min,max]; hdrplot "
+                   "rows parsed back: value and percentile columns never decrease, ladder runs 0..1.",
+    "technique": "property-based test against a sorted-sample rank oracle (rapid)",
+    "level_text": "generated-input search over distributions and arrival orders against an exact rank computation on "
+                  "the sorted sample; cannot prove absence",
+    "level_note": "the rank convention is the one most favourable to the estimator among the usual percentile "
+                  "definitions; the listed known finding p50-resolution suppresses only median errors up to 1+0.032*n",
+    "assumptions": [],
+}
